@@ -15,9 +15,9 @@ theorem clean_kVolatile : Clean kVolatile := clean_of_decide (by decide) (by dec
 theorem clean_kStruct : Clean kStruct := clean_of_decide (by decide) (by decide)
 
 theorem intKw_ident (w : Str)
-    (h : [kw "signed", kw "unsigned", kw "short", kw "long", kw "int", kw "char"].contains w = true) :
+    (h : intKeywords.contains w = true) :
     isIdent w = true := by
-  simp only [List.contains_eq_mem, List.mem_cons, List.not_mem_nil, or_false, decide_eq_true_eq] at h
+  simp only [intKeywords, List.contains_eq_mem, List.mem_cons, List.not_mem_nil, or_false, decide_eq_true_eq] at h
   rcases h with h | h | h | h | h | h <;> subst h <;> decide
 
 theorem validWords_clean {ws : List Str} (h : validWords ws = true) : ws ≠ [] ∧ ∀ w ∈ ws, Clean w := by
